@@ -6,6 +6,7 @@
 (*  large   |req| in {999,1000,1001} (unbatched / batched switch of extract_with_config), 1500, 5001   *)
 (*          (adaptive batch size), T up to 32, B in {1,7,10,|req|,|req|+1}, on the 1300-file archive   *)
 (*          with multi-sector and encrypted members;                                                  *)
+(*  chain   PatchChain::from_archives_parallel / add_archives_parallel = sequential add_archive (order, ties, winner) *)
 (*  multi   parallel::extract_from_multiple_archives over 1..5 archives, one of them lacking the file. *)
 EXTENDS Integers, Sequences, SequencesExt, FiniteSets, Json, IOUtils, TLC
 
@@ -41,7 +42,12 @@ Big == { Cfg("with_config", "L", tb[1], tb[2], n, s, m, "none") : tb \in BigTB, 
             n \in {1001, 1500}, m \in {"none", "middle"} }
 Multi == { Cfg(i, "M", t, 0, n, FALSE, m, "none") : i \in {"multi", "multi_many"}, t \in {1, 3, 8}, n \in 0..5, m \in {"none", "first", "middle", "last"} }
 MultiSel == {c \in Multi : c.miss # "none" => c.n > 0}
-Cases == SetToSeq(SmallSel) \o SetToSeq(OthersSel) \o SetToSeq(Matching) \o SetToSeq(Big) \o SetToSeq(MultiSel)
+\* PatchChain::from_archives_parallel / add_archives_parallel against sequential add_archive: b = priority pattern
+\* (0 all equal .. 4 negative + ties), n archives, miss = "middle": one path does not exist
+ChainPar == { Cfg(i, "M", t, pat, n, FALSE, m, "none") : i \in {"chain_par", "chain_addpar"}, t \in {1, 3, 8}, pat \in 0..4,
+              n \in 0..6, m \in {"none", "middle"} }
+ChainSel == {c \in ChainPar : (c.miss = "middle" => c.n > 0) /\ (Thorough \/ c.t # 1)}
+Cases == SetToSeq(ChainSel) \o SetToSeq(SmallSel) \o SetToSeq(OthersSel) \o SetToSeq(Matching) \o SetToSeq(Big) \o SetToSeq(MultiSel)
 ASSUME ndJsonSerialize(IOEnv.CASES, Cases)
 ASSUME PrintT(<<"GENERATED", Len(Cases), Cardinality(SmallSel), Cardinality(OthersSel), Cardinality(Big)>>)
 =============================================================================
